@@ -99,6 +99,20 @@ inline std::vector<int64_t> gen_refs(Tape& t, size_t n) {
 inline std::vector<int> readers_for(const TypeOps& t) { std::vector<int> r; for (int k = 0; k < R_COUNT; k++) if (t.supports_reader(k)) r.push_back(k); return r; }
 inline std::vector<int> writers_for(const TypeOps& t) { std::vector<int> r; for (int k = 0; k < W_COUNT; k++) if (t.supports_writer(k)) r.push_back(k); return r; }
 
+// Structure-aware mutation of the valid encoding of (t.schema, v) (codec_props2.cc).
+struct Mutated {
+  Bytes bytes;
+  std::vector<std::string> what;      // human-readable list of applied mutations
+  std::map<int64_t, int64_t> handles; // reference -> payload for the reference decoder / LogReader
+  bool inflated_len = false;
+  bool single() const { return what.size() == 1; }
+};
+Mutated mutate(const TypeOps& t, const Value& v, Tape& tp, int nmut, const Value* other = nullptr);
+struct LibRead { int status; Value value; size_t pos; std::vector<int64_t> resolved; };
+LibRead lib_read(const TypeOps& t, const Bytes& bytes, const std::map<int64_t, int64_t>& handles, Obj* into = nullptr);
+// Differential comparison of the library decoder with the reference decoder on one input.
+std::string compare_with_reference(Ctx& c, const TypeOps& t, const Bytes& bytes, const std::map<int64_t, int64_t>& handles, bool single_defect, const std::string& how, bool* accepted_noncanonical, bool* rejected);
+
 // Writer-side view of a table schema: deleted entries become active and an unknown entry is
 // appended, so that reference encodings contain entries the reading definition skips.
 SchemaP writer_variant(const Schema& s, Tape& t, bool* changed);
